@@ -548,3 +548,26 @@ Proof.
 Qed.
 
 End InMap.
+
+(* the signature conditions of [canon_in] hold whenever the serialiser lists the partial
+   signatures in sorted order (no multisig script attached) and the dictionary is sorted *)
+Lemma sig_canon_sorted st :
+  sig_keys st = dkeys (pi_sigs st) -> dsorted (pi_sigs st) ->
+  NoDup (sig_keys st) /\ dins [] (sig_entries st) = pi_sigs st.
+Proof.
+  intros Hk Hs.
+  assert (E : sig_entries st = pi_sigs st).
+  { unfold sig_entries. rewrite Hk. unfold dkeys. rewrite map_map.
+    clear Hk. induction Hs as [|k v r Hall Hs' IH]; [reflexivity|].
+    cbn [map fst]. f_equal.
+    - unfold dget_or_empty. cbn. now rewrite bcmp_refl.
+    - rewrite <- IH at 2. apply map_ext_in. intros [k1 v1] Hin. cbn [fst]. f_equal.
+      unfold dget_or_empty. cbn [dget].
+      rewrite Forall_forall in Hall. specialize (Hall _ Hin). cbn in Hall.
+      apply bcmp_lt_gt in Hall. now rewrite Hall. }
+  split.
+  - rewrite Hk. clear Hk E. induction Hs as [|k v r Hall Hs' IH]; cbn; constructor; [|exact IH].
+    intros Hin. unfold dkeys in Hin. apply in_map_iff in Hin as [[k2 v2] [E2 Hin]]. cbn in E2. subst k2.
+    rewrite Forall_forall in Hall. specialize (Hall _ Hin). cbn in Hall. rewrite bcmp_refl in Hall. discriminate.
+  - rewrite E. now apply dins_nil_sorted.
+Qed.
